@@ -233,6 +233,7 @@ fn main() {
             0
         }
         "stream" => do_stream(&args),
+        "huge" => do_huge(&args),
         "info" => {
             let ks = scen::s5_mem::kinds();
             println!("{}", J::obj().set("mem_kinds", J::U(ks.len() as u128)).set("mem_enum_combos", J::U(scen::s5_mem::combos(&ks).len() as u128)).set("max_host_level", J::U(hosts::max_level() as u128)).to_string());
@@ -390,6 +391,134 @@ fn do_stream_oneshot(ty: usize, name: &str, boundary: u128, seed: u64) -> i32 {
         .set("counter_mismatches", J::U(0))
         .set("wall_ms", J::U(t0.elapsed().as_millis()));
     println!("{}", out.to_string());
+    if ok {
+        0
+    } else {
+        1
+    }
+}
+
+/// One call with a HUGE slice (2 GiB / 4 GiB and a bit): lengths no sweep can afford, so they get their own
+/// operation. The slice is anonymous zero memory that ends at an unmapped page; the result is compared with the
+/// same bytes processed in 1 MiB pieces by a twin instance.
+///   huge --what hash:<Type>|cipher:<Kind> --len N [--pre H]
+fn do_huge(args: &BTreeMap<String, String>) -> i32 {
+    use scen::hashes::{new_hash, type_index};
+    extern "C" {
+        fn mmap(addr: *mut u8, len: usize, prot: i32, flags: i32, fd: i32, off: i64) -> *mut u8;
+        fn mprotect(addr: *mut u8, len: usize, prot: i32) -> i32;
+    }
+    let what = arg(args, "what", "hash:Groestl256").to_string();
+    let len: usize = arg(args, "len", "2147483729").parse().expect("--len");
+    let pre: usize = arg(args, "pre", "0").parse().expect("--pre");
+    let t0 = std::time::Instant::now();
+    let page = 4096usize;
+    let total = (len + page - 1) / page * page + 2 * page;
+    // PROT_NONE everywhere, then the data part readable/writable: the slice ends exactly at the trailing guard page
+    let base = unsafe { mmap(std::ptr::null_mut(), total, 0, 0x22 | 0x4000, -1, 0) };
+    assert!(!base.is_null() && base as isize != -1, "mmap of {} bytes failed", total);
+    let data_pages = total - 2 * page;
+    assert_eq!(unsafe { mprotect(base.add(page), data_pages, 3) }, 0);
+    let start = unsafe { base.add(page + data_pages - len) };
+    scen::arena::CUR_RUN.store(0, std::sync::atomic::Ordering::Relaxed);
+    scen::arena::CUR_OP.store(0, std::sync::atomic::Ordering::Relaxed);
+    let ok;
+    let mut detail = String::new();
+    if let Some(tyname) = what.strip_prefix("hash:") {
+        let ty = type_index(tyname).expect("hash type");
+        let slice = unsafe { std::slice::from_raw_parts(start, len) };
+        // input only: read-only pages
+        assert_eq!(unsafe { mprotect(base.add(page), data_pages, 1) }, 0);
+        let prefix = vec![0x5au8; pre];
+        let mut one = new_hash(ty);
+        one.update(&prefix);
+        one.update(slice);
+        let d1 = one.finalize_box();
+        let mut many = new_hash(ty);
+        many.update(&prefix);
+        let zeros = vec![0u8; (1 << 20) - 3];
+        let mut left = len;
+        while left > 0 {
+            let n = left.min(zeros.len());
+            many.update(&zeros[..n]);
+            left -= n;
+        }
+        let d2 = many.finalize_box();
+        ok = d1 == d2;
+        if !ok {
+            detail = format!("one call {} vs pieces {}", kit::json::hex(&d1), kit::json::hex(&d2));
+        }
+    } else if let Some(kname) = what.strip_prefix("cipher:") {
+        use scen::s1_chacha_stream::Real;
+        let kind = refm::chacha::Kind::from_name(kname).expect("cipher kind");
+        let key = [0x42u8; 32];
+        let nonce = vec![7u8; kind.nonce_len()];
+        let slice = unsafe { std::slice::from_raw_parts_mut(start, len) };
+        let mut a = Real::new(kind, &key, &nonce);
+        let mut b = Real::new(kind, &key, &nonce);
+        let mut p1 = vec![0u8; pre];
+        let mut p2 = vec![0u8; pre];
+        a.apply(&mut p1);
+        b.apply(&mut p2);
+        a.apply(slice);
+        // twin: the same keystream in 1 MiB - 3 pieces, compared piece by piece
+        let mut piece = vec![0u8; (1 << 20) - 3];
+        let mut off = 0usize;
+        let mut bad: Option<usize> = None;
+        while off < len {
+            let n = (len - off).min(piece.len());
+            for x in piece[..n].iter_mut() {
+                *x = 0;
+            }
+            b.apply(&mut piece[..n]);
+            if bad.is_none() && piece[..n] != slice[off..off + n] {
+                bad = Some(off + piece[..n].iter().zip(&slice[off..off + n]).position(|(x, y)| x != y).unwrap());
+            }
+            off += n;
+        }
+        let mut t1 = [0u8; 70];
+        let mut t2 = [0u8; 70];
+        a.apply(&mut t1);
+        b.apply(&mut t2);
+        ok = bad.is_none() && t1 == t2;
+        if !ok {
+            detail = format!("first differing byte {:?}; following keystream equal: {}", bad, t1 == t2);
+        }
+    } else if let Some(kname) = what.strip_prefix("exhaust:") {
+        // a request longer than everything that is left must be refused at once, without touching the data:
+        // the slice is a MAP_NORESERVE mapping of untouched zero pages; the driver's watchdog catches an acceptance
+        use scen::s1_chacha_stream::Real;
+        let kind = refm::chacha::Kind::from_name(kname).expect("cipher kind");
+        let slice = unsafe { std::slice::from_raw_parts_mut(start, len) };
+        let mut c = Real::new(kind, &[0x11u8; 32], &vec![0xffu8; kind.nonce_len()]);
+        let seek_to: u64 = arg(args, "seek", "-1").parse::<i64>().map(|v| v as u64).unwrap_or(u64::MAX);
+        if seek_to != u64::MAX {
+            assert_eq!(c.try_seek(3, seek_to as u128, false), Some(true));
+        }
+        let mut p1 = vec![0u8; pre];
+        c.apply(&mut p1);
+        let refused = !c.try_apply(slice);
+        let pos = c.try_pos(4);
+        let want = if seek_to == u64::MAX { 0 } else { seek_to as u128 } + pre as u128;
+        // usable afterwards, at the same position
+        let mut probe = [0u8; 16];
+        let still_ok = c.try_apply(&mut probe);
+        let mut twin = Real::new(kind, &[0x11u8; 32], &vec![0xffu8; kind.nonce_len()]);
+        assert_eq!(twin.try_seek(4, want, false), Some(true));
+        let mut probe2 = [0u8; 16];
+        twin.try_apply(&mut probe2);
+        ok = refused && pos == Some(want) && still_ok && probe == probe2;
+        if !ok {
+            detail = format!("refused={} pos={:?} want={} usable={} bytes_equal={}", refused, pos, want, still_ok, probe == probe2);
+        }
+    } else {
+        eprintln!("--what hash:<Type>|cipher:<Kind>|exhaust:<Kind>");
+        return 2;
+    }
+    println!(
+        "{}",
+        J::obj().set("what", J::str(&what)).set("len", J::U(len as u128)).set("pre", J::U(pre as u128)).set("ok", J::Bool(ok)).set("detail", J::S(detail)).set("wall_ms", J::U(t0.elapsed().as_millis())).to_string()
+    );
     if ok {
         0
     } else {
